@@ -9,6 +9,7 @@ import Driver.Capture
 import Driver.Backup
 import Driver.CalcSteps
 import Driver.Struct
+import Driver.SMech
 /-! `mxdriver <layer>`: reads one operation per line on stdin, prints one observation per line. -/
 def main (args : List String) : IO UInt32 := do
   match args with
@@ -23,4 +24,5 @@ def main (args : List String) : IO UInt32 := do
   | ["backup"] => Driver.Backup.main; return 0
   | ["calcsteps"] => Driver.CalcSteps.main; return 0
   | ["struct"] => Driver.Struct.main; return 0
+  | ["smech"] => Driver.SMech.main; return 0
   | _ => IO.eprintln "usage: mxdriver <layer>"; return 2
